@@ -222,6 +222,10 @@ func checkC16(c *checkCtx) {
 				if got > 1 {
 					fail(v, "timeout", "listener-dup", fmt.Sprintf("timeout at position %d: OnTimeoutExceeded fired %d times", n.Pos, got))
 				}
+				if !(n.Exit.Val == nil && n.Exit.Err == timeout.ErrExceeded) && got != 0 {
+					// the event was announced but the Timeout let the inner result through: no timeout happened
+					fail(v, "timeout", "listener-spurious", fmt.Sprintf("timeout at position %d returned the inner result %s, yet OnTimeoutExceeded fired %d time(s)", n.Pos, outcomeStr(n.Exit), got))
+				}
 			case KCache:
 				pol := v.Stack[n.Pos]
 				var gets, sets int
